@@ -300,6 +300,37 @@ func (u *Unit) havocAll(st *State) {
 	u.flushBounds(st)
 }
 
+// havocFreshOnly: an unknown callee that is assumed to modify only objects allocated after `bound` (the allocation
+// counter at entry of the function under verification): rows up to bound keep their contents in every heap.
+func (u *Unit) havocFreshOnly(st *State, bound string) {
+	alloc := u.heapCur(st, "$alloc")
+	clock := u.heapCur(st, "$clock")
+	var names []string
+	for k := range st.heaps {
+		names = append(names, k)
+	}
+	sort.Strings(names)
+	for _, k := range names {
+		if strings.HasPrefix(k, "$") || strings.HasPrefix(k, "L$") {
+			continue
+		}
+		srt := u.heapSort[k]
+		if !strings.HasPrefix(srt, "(Array Int ") {
+			continue // globals and other scalars: not modified
+		}
+		old := st.heaps[k]
+		nh := u.heapHavoc(st, k)
+		if u.dry == 0 {
+			u.assume(fmt.Sprintf("(forall ((r!o Int)) (! (=> (<= r!o %s) (= (select %s r!o) (select %s r!o))) :pattern ((select %s r!o))))", bound, nh, old, nh))
+		}
+	}
+	na := u.heapHavoc(st, "$alloc")
+	u.assume(app(">=", na, alloc))
+	nc := u.heapHavoc(st, "$clock")
+	u.assume(app(">=", nc, clock))
+	u.flushBounds(st)
+}
+
 // heapTypeKey names the heap partition of a Go type: values of different Go types live in different
 // heap arrays and therefore cannot alias (named non-struct types are identified with their underlying type,
 // since conversions between them share memory).
